@@ -22,8 +22,8 @@ THEOREMS = [
     "Typedpy.C13.none_first_equiv", "Typedpy.C13.none_inner_optional", "Typedpy.C13.hasNoneOpt_position",
     "Typedpy.C13.tuple_single_equiv", "Typedpy.C13.none_default_equiv",
     "Typedpy.C13.factory_default_equiv", "Typedpy.C13.fixed_factory_builtin_class",
-    "Typedpy.C13.scope_irrelevant", "Typedpy.C13.string_annotation_equiv", "Typedpy.C13.counterexample_quoted_future",
-    "Typedpy.C13.counterexample_quoted_50", "Typedpy.C13.counterexample_enclosing_scope",
+    "Typedpy.C13.scope_irrelevant", "Typedpy.C13.string_annotation_equiv", "Typedpy.C13.fixed_quoted_future",
+    "Typedpy.C13.fixed_quoted_50", "Typedpy.C13.counterexample_enclosing_scope",
     "Typedpy.C13.same_observation",
     "Typedpy.C13.same_serialize",
     "Typedpy.C13.same_deserialize",
@@ -31,8 +31,8 @@ THEOREMS = [
     "Typedpy.C13.behaviour_example",
     "Typedpy.C13.struct_field_equiv",
     "Typedpy.C13.tuple_pair_equiv",
-    "Typedpy.C13.counterexample_tuple_items_struct",
-    "Typedpy.C13.counterexample_struct_first_nested",
+    "Typedpy.C13.fixed_tuple_items_struct",
+    "Typedpy.C13.fixed_struct_first_nested",
     "Typedpy.C13.elaborate_flatten",
     "Typedpy.C13.flatten_equiv",
     "Typedpy.C13.elabField_flatten",
